@@ -135,6 +135,7 @@ func cgroupScenario(s *Sim, params map[string]string) {
 	mixedLists := t.Intn("racks", 2) == 0
 	nmem := t.Range("cfg", 1, 3)
 	lateNext := t.Intn("latenext", 3) == 0
+	longLinger := t.Intn("longlinger", 4) == 0
 	var members []*cgMember
 	membersRef = func() []*cgMember { return members }
 	slack := 2*n.MaxLatency + time.Millisecond
@@ -203,6 +204,13 @@ func cgroupScenario(s *Sim, params map[string]string) {
 					f.selfExit = t.Intn("work", 5) == 0
 					selfAfter := time.Duration(t.Range("work", 1, 8000)) * time.Millisecond
 					linger := time.Duration(Pick(t, "work", 0, 0, 0, 3, 40)) * time.Millisecond
+					if longLinger && t.Intn("longlinger", 3) == 0 {
+						// application code that takes longer to wind down than the
+						// group's rebalance time-out: the member misses the rebalance,
+						// but still must not be handed the next generation before
+						linger = rebalance + time.Duration(t.Range("longlinger", 300, 3000))*time.Millisecond
+						s.Count("function-lingers-beyond-rebalance-timeout")
+					}
 					// A function handed to Start after the generation has ended is
 					// run but not waited for (documented edge case). Whether the
 					// library saw this Start before or after the end is only
@@ -422,6 +430,9 @@ func cgroupScenario(s *Sim, params map[string]string) {
 				// Close cannot interrupt a join or sync that is waiting at the
 				// coordinator; then it leaves the group (two more round trips)
 				bound := timeout + rebalance + session + 2*timeout + time.Second
+				if longLinger {
+					bound += rebalance + 3*time.Second // Close waits for the functions
+				}
 				for _, gn := range m.gens {
 					for _, f := range gn.fns {
 						_ = f
@@ -545,6 +556,13 @@ func cgroupScenario(s *Sim, params map[string]string) {
 					over := s.Now()
 					if m.closeInv != 0 && m.closeInvAt < over {
 						over = m.closeInvAt
+					}
+					// ... or one of its functions returned (which ends it on the client
+					// side at once; the rejoin waits for the other functions)
+					for _, gn := range m.gens {
+						if gn.memberID == r.Body.Str("member_id") && gn.id == r.Body.I32("generation_id") && gn.ended && gn.endAt < over {
+							over = gn.endAt
+						}
 					}
 					started := false // the offsets were fetched: the generation exists on the client side
 					for _, r2 := range cl.Journal[i+1:] {
